@@ -285,3 +285,116 @@ def op_call_batch(task):
 
 
 OPS["call_batch"] = op_call_batch
+
+
+def _gcc_syntax(c_text: str) -> str | None:
+    """gcc -fsyntax-only on emitted C given the published header; returns the error text or None."""
+    import subprocess
+
+    from tensora.compile._cffi_ownership import taco_type_header
+    from tensora.compile._compile_cffi import taco_define_header
+
+    src = "#include <stdint.h>\n#include <stdlib.h>\n" + taco_define_header + taco_type_header + c_text
+    r = subprocess.run(["gcc", "-std=c11", "-fsyntax-only", "-Werror=implicit-function-declaration",
+                        "-Wno-unused-variable", "-x", "c", "-"], input=src, capture_output=True, text=True, timeout=60)
+    return None if r.returncode == 0 else r.stderr[-600:]
+
+
+def _llvm_verify(text: str) -> str | None:
+    import llvmlite.binding as llvm
+
+    try:
+        llvm.parse_assembly(text).verify()
+        return None
+    except Exception as e:  # noqa: BLE001
+        return f"{type(e).__name__}: {e}"[-600:]
+
+
+def op_generate_batch(task):
+    """C08 / C15: run generation requests through the library, the CLI, tensor_method and evaluate."""
+    import hashlib
+    import time
+
+    from returns.result import Failure, Success
+    from typer.testing import CliRunner
+
+    import tensora
+    from tensora import Tensor
+    from tensora.cli import app
+    from tensora.expression import parse_assignment
+    from tensora.format import parse_format
+    from tensora.generate import Language, generate_code
+    from tensora.kernel_type import KernelType
+    from tensora.problem import make_problem
+
+    runner = CliRunner()
+    outs = []
+    for c in task["cases"]:
+        sys.stdout.write("@@" + json.dumps({"id": task["id"], "progress": c["cid"]}) + "\n")
+        sys.stdout.flush()
+        t0 = time.time()
+        rec = {"cid": c["cid"]}
+        formats = dict(c["formats"])
+        try:
+            if c["entry"] in ("library", "cli"):
+                a = parse_assignment(c["text"])
+                if isinstance(a, Failure):
+                    rec["outcome"] = "ParseFailure:" + type(a.failure()).__name__
+                else:
+                    pr = make_problem(a.unwrap(), {n: parse_format(f).unwrap() for n, f in formats.items()})
+                    if isinstance(pr, Failure):
+                        rec["outcome"] = "ProblemFailure:" + type(pr.failure()).__name__
+                    else:
+                        res = generate_code(pr.unwrap(), [KernelType[k] for k in c["kinds"]], Language[c["lang"]])
+                        if isinstance(res, Success):
+                            text = res.unwrap()
+                            rec["outcome"] = "Code"
+                            rec["sha"] = hashlib.sha256(text.encode()).hexdigest()
+                            if c.get("toolchain", True):
+                                rec["tool"] = _gcc_syntax(text) if c["lang"] == "c" else _llvm_verify(text)
+                            if c.get("keep_text"):
+                                rec["code"] = text
+                        else:
+                            rec["outcome"] = type(res.failure()).__name__
+                        if c["entry"] == "cli":
+                            args = [c["text"]]
+                            for n, f in formats.items():
+                                args += ["-f", f"{n}:{f}"]
+                            for k in c["kinds"]:
+                                args += ["-t", k]
+                            args += ["-l", c["lang"]]
+                            r = runner.invoke(app, args)
+                            rec["cli_exit"] = r.exit_code
+                            rec["cli_exception"] = None if r.exception is None or isinstance(r.exception, SystemExit) \
+                                else type(r.exception).__name__
+                            out = r.stdout
+                            rec["cli_sha"] = hashlib.sha256(out.rstrip("\n").encode()).hexdigest()
+                            rec["cli_traceback"] = "Traceback (most recent call last)" in (r.output or "")
+                            rec["cli_message"] = (r.output or "")[:120] if r.exit_code != 0 else ""
+                            if isinstance(res, Success):
+                                rec["cli_matches_library"] = out.rstrip("\n") == res.unwrap().rstrip("\n")
+            elif c["entry"] == "method":
+                tensora.tensor_method(c["text"], formats)
+                rec["outcome"] = "Code"
+            elif c["entry"] == "evaluate":
+                a = parse_assignment(c["text"]).unwrap()
+                target = a.target.name
+                orders = a.variable_orders()
+                part = a.index_participants()
+                inputs = {}
+                for n, f in formats.items():
+                    if n == target:
+                        continue
+                    inputs[n] = Tensor.from_dok({}, dimensions=(2,) * orders[n], format=f)
+                r = tensora.evaluate(c["text"], formats[target], **inputs)
+                rec["outcome"] = "Code"
+                rec["result_dims"] = list(r.dimensions)
+        except Exception as e:  # noqa: BLE001
+            rec["outcome"] = type(e).__name__
+            rec["msg"] = str(e)[:200]
+        rec["elapsed"] = round(time.time() - t0, 3)
+        outs.append(rec)
+    return {"outs": outs}
+
+
+OPS["generate_batch"] = op_generate_batch
